@@ -9,7 +9,9 @@ graph evaluation).
     (compile seg assets (uid*))        -> (ok (symbol*)) | (error assembly|keyError|assertion|unexpected)
     (run assets (symbol*))             -> (ok ((key val)*) (key*) (key*) agree) | cyclic    vals, trace, sinks, memo==value
     (eval seg assets)                  -> (ok ((uid val)*) none|(some val)) | cyclic
-    (dfs seg)                          -> (ok (uid*) <each> connected closed)   <each> ::= (ok (uid*)) | cyclic
+    (dfs seg)                          -> (ok (uid*) <each> connected closed <construct>)   <each> ::= (ok (uid*)) | cyclic
+    (construct seg)                    -> <construct> ::= ok | simpleHead | simpleTail | disconnected | cyclic
+       `Segment.construct`: what `flow.Segment(head, tail)` does with the graph
        `Segment.visitOrder`; `Segment.each` (the traversal with the recursion path and the `Cyclic` test); the member
        list is the reachable set (`connected`); subscriptions stay inside the member list (`closed`)
     (wf seg assets ((uid rank)*))      -> (ok wf assetsOK)
@@ -113,11 +115,19 @@ def evalOut (g : Segment) (A : Option Assets) : Sexp :=
   .list [.atom "ok", .list (r.values.map fun (u, v) => .list [.ofNat u, v.toSexp]),
          Sexp.ofOption Val.toSexp r.commit]
 
+def constructOut (g : Segment) : Sexp :=
+  match g.construct with
+  | .ok () => .atom "ok"
+  | .error .simpleHead => .atom "simpleHead"
+  | .error .simpleTail => .atom "simpleTail"
+  | .error .disconnected => .atom "disconnected"
+  | .error .cyclic => .atom "cyclic"
+
 def dfsOut (g : Segment) : Sexp :=
   let each := match g.each with
     | .ok o => Sexp.list [.atom "ok", Sexp.ofNats o]
     | .error .cyclic => .atom "cyclic"
-  .list [.atom "ok", Sexp.ofNats g.visitOrder, each, Sexp.ofBool g.connected, Sexp.ofBool g.closed]
+  .list [.atom "ok", Sexp.ofNats g.visitOrder, each, Sexp.ofBool g.connected, Sexp.ofBool g.closed, constructOut g]
 
 def wfOut (g : Segment) (A : Option Assets) (rank : Uid → Nat) : Sexp :=
   .list [.atom "ok", Sexp.ofBool (g.wf rank), Sexp.ofBool (g.assetsOK A)]
@@ -155,6 +165,10 @@ def stepC01 : Sexp → Sexp
   | .list [.atom "dfs", seg] =>
     match segment? seg with
     | some g => dfsOut g
+    | none => .atom "bad-op"
+  | .list [.atom "construct", seg] =>
+    match segment? seg with
+    | some g => constructOut g
     | none => .atom "bad-op"
   | .list [.atom "wf", seg, assets, rk] =>
     match segment? seg, Assets.ofSexp? assets, rank? rk with
